@@ -508,6 +508,9 @@ class FlameSwipVI(
     @reducer_method
     def use(self, _: None, state: FlameSwipVIState):
         state, event = self.use_simple_attack(state)
+        if is_rejected(event):
+            return state, event
+
         event += [self.get_dot_add_event()]
         state.stack.increase(1)
 
